@@ -543,6 +543,108 @@ Definition h_op_sort_deep (w : hworld) (ti p : nat) (k : keyt) (reverse : bool) 
                    (if failed then Err ECrash else Ok [], h_put w ti h')
   end.
 
+(* ---- in-place filter: Node.filter._visit, the removals of a level happen after its loop ---- *)
+Fixpoint h_fvisit (fuel : nat) (vd : verdicts) (h : hstate) (parent : nat) (stopped : bool)
+  : bool * hstate * bool * bool :=                         (* must_keep, heap, stopped, predicate raised *)
+  match fuel with
+  | 0 => (false, h, stopped, false)
+  | S f =>
+      let '(must, pend, hh, s, raised) :=
+        fold_left (fun (acc : bool * list nat * hstate * bool * bool) n =>
+                     let '(must, pend, hh, s, raised) := acc in
+                     if raised then acc
+                     else match (if s then VSkip else verdict_of vd n) with
+                          | VRaise => (must, pend, hh, s, true)
+                          | VStop => (must, pend ++ [n], hh, true, false)
+                          | VSkip => (must, pend ++ [n], hh, s, false)
+                          | VSkipKeep => (true, pend, h_remove_children hh n, s, false)     (* n.remove_children() *)
+                          | VSelect => (true, pend, hh, s, false)
+                          | VTrue => match h_fvisit f vd hh n s with
+                                     | (_, h2, s2, true) => (must, pend, h2, s2, true)
+                                     | (_, h2, s2, false) => (true, pend, h2, s2, false)
+                                     end
+                          | VFalse => match h_fvisit f vd hh n s with
+                                      | (_, h2, s2, true) => (must, pend, h2, s2, true)
+                                      | (true, h2, s2, false) => (true, pend, h2, s2, false)
+                                      | (false, h2, s2, false) => (must, pend ++ [n], h2, s2, false)
+                                      end
+                          end)
+                  (hch h parent) (false, [], h, stopped, false) in
+      if raised then (must, hh, s, true)
+      else (must, fold_left h_remove_plain pend hh, s, false)          (* for n in remove_nodes: n.remove() *)
+  end.
+
+Definition h_op_filter (w : hworld) (ti n : nat) (vd : verdicts) : res * hworld :=
+  match h_get w ti with
+  | None => (Err EModel, w)
+  | Some h =>
+      if negb (h_plive h n) then (Err EModel, w)
+      else match h_fvisit (h_fuel h) vd h n false with
+           | (_, h', _, failed) => (if failed then Err ECrash else Ok [], h_put w ti h')
+           end
+  end.
+
+(* ---- from_dict: append_child per item; `except: self.remove_children(); raise` at every level ---- *)
+Definition h_cleanup (w : hworld) (ti p : nat) : hworld :=
+  match h_get w ti with Some h => h_put w ti (h_remove_children h p) | None => w end.
+
+Fixpoint h_from_dict_item (ti p : nat) (it : ditem) (w : hworld) {struct it} : res * hworld :=
+  match it with
+  | DI d e ch =>
+      match h_op_add w ti p d e None BNone with
+      | (Ok [n], w1) =>
+          match ch with
+          | [] => (Ok [], w1)
+          | _ =>
+              match (fix go (l : list ditem) (w : hworld) {struct l} : res * hworld :=
+                       match l with
+                       | [] => (Ok [], w)
+                       | x :: l' => match h_from_dict_item ti n x w with
+                                    | (Ok _, w2) => go l' w2
+                                    | err => err
+                                    end
+                       end) ch w1 with
+              | (Err x, w2) => (Err x, h_cleanup w2 ti n)
+              | ok => ok
+              end
+          end
+      | (Ok _, w1) => (Err EModel, w1)
+      | (Err x, w1) => (Err x, w1)
+      end
+  end.
+
+Fixpoint h_from_dict_items (ti p : nat) (l : list ditem) (w : hworld) : res * hworld :=
+  match l with
+  | [] => (Ok [], w)
+  | x :: l' => match h_from_dict_item ti p x w with
+               | (Ok _, w2) => h_from_dict_items ti p l' w2
+               | err => err
+               end
+  end.
+
+Definition h_op_from_dict (w : hworld) (ti p : nat) (items : list ditem) : res * hworld :=
+  match h_get w ti with
+  | None => (Err EModel, w)
+  | Some h =>
+      if negb (h_plive h p) then (Err EModel, w)
+      else match hch h p with
+           | _ :: _ => (Err EAssert, w)
+           | [] =>
+               match h_from_dict_items ti p items w with
+               | (Ok _, w1) => (Ok [], w1)
+               | (Err e, w1) => (Err e, h_cleanup w1 ti p)
+               end
+           end
+  end.
+
+Definition h_op_tree_from_dict (w : hworld) (items : list ditem) : res * hworld :=
+  let ti := length (htrees w) in
+  let w0 := HW (htrees w ++ [h_empty false None]) (hnext w) in
+  match h_from_dict_items ti 0 items w0 with
+  | (Ok _, w1) => (Ok [ti], w1)
+  | (Err e, w1) => (Err e, HW (htrees w) (hnext w1))
+  end.
+
 (* ---- del tree[key] = tree[key].remove(): the lookup reads registry and index only ---- *)
 Definition h_getitem (h : hstate) (k : delkey) : option (list nat) :=
   match k with
@@ -625,7 +727,9 @@ Definition modelled_heap (o : op) : bool :=
   | OCopyTo _ _ _ _ _ _ _ => true
   | OTreeCopy _ => true
   | ONodeCopy _ _ _ => true
-  | _ => false
+  | OFilter _ _ _ => true
+  | OFromDict _ _ _ => true
+  | OTreeFromDict _ => true
   end.
 
 Definition h_step (w : hworld) (o : op) : res * hworld :=
@@ -642,13 +746,15 @@ Definition h_step (w : hworld) (o : op) : res * hworld :=
   | OCopyTo sti src ti target a b deep => h_op_copy_to w sti src ti target a b deep
   | OTreeCopy sti => h_op_tree_copy w sti
   | ONodeCopy sti src a => h_op_node_copy w sti src a
+  | OFilter ti n vd => h_op_filter w ti n vd
+  | OFromDict ti p items => h_op_from_dict w ti p items
+  | OTreeFromDict items => h_op_tree_from_dict w items
   | OMeta ti n o => h_op_meta w ti n o
   | ONewTree ty c => (Ok [length (htrees w)], HW (htrees w ++ [h_empty ty c]) (hnext w))
   | ODel ti k => h_op_del w ti k
   | OShort ti n how d e k => h_op_shortcut w ti n how d e k
   | OSetData ti n d e wc => h_op_set_data w ti n d e wc
   | ORename ti n d => h_op_rename w ti n d
-  | _ => (Err EModel, w)
   end.
 
 Definition h_run (ops : list op) (w : hworld) : hworld := fold_left (fun w o => snd (h_step w o)) ops w.
